@@ -51,9 +51,17 @@ def parse_tree(toks):
     return v
 
 
+_cur_op = ""
+_pos = 0
+_live = None          # cryptogram-version objects kept alive across calls (rewritten_buffers session)
+
+
 def thunk(line):
+    global _cur_op, _pos
     w = line.split()
     op, a = w[0], w[1:]
+    _cur_op = op + ((" " + a[0] + " " + a[6]) if op == "cvn" and len(a) > 6 else "")
+    _pos = 0
     PT = dict(gens.PT); ET = dict(gens.ET)
     if op == "tools.xor": return lambda: tools.xor(unhex(a[0]), unhex(a[1]))
     if op == "tools.odd_parity": return lambda: tools.odd_parity(int(a[0]))
@@ -89,6 +97,11 @@ def thunk(line):
     if op == "cvn":
         cls = a[0]
         def mk():
+            if _live is not None:
+                key = (cls,) + tuple(a[1:6])
+                if key not in _live:
+                    _live[key] = getattr(cvn, cls)(_unhex0(a[1]), _unhex0(a[2]), _unhex0(a[3]), sb(a[4]), sb(a[5]))
+                return _live[key]
             return getattr(cvn, cls)(unhex(a[1]), unhex(a[2]), unhex(a[3]), sb(a[4]), sb(a[5]))
         m, r = a[6], a[7:]
         if m == "keys": return lambda: (lambda o: o.icc_mk_ac + o.icc_mk_smi + o.icc_mk_smc)(mk())
@@ -166,3 +179,37 @@ class view_objects:
     def __exit__(self, *a):
         global unhex
         unhex = self._old
+
+
+class rewritten_buffers:
+    """Within the block every byte-string argument travels in ONE bytearray per (operation, argument position),
+    overwritten in place with the new content before each call, and cryptogram-version objects are kept alive and
+    reused for equal constructor arguments.  A callee that remembers an argument *object* (a cache keyed by
+    identity, a stored reference) then compares the buffer with itself or reads what a later call wrote."""
+
+    def __enter__(self):
+        global unhex, _live
+        self._old = unhex
+        self.bufs = {}
+        _live = {}
+
+        def rewritten(s):
+            global _pos
+            b = _unhex0(s)
+            if len(b) > 65536:
+                return b
+            _pos += 1
+            key = (_cur_op, _pos)
+            buf = self.bufs.get(key)
+            if buf is None:
+                buf = self.bufs[key] = bytearray(b)
+            else:
+                buf[:] = b
+            return buf
+        unhex = rewritten
+        return self
+
+    def __exit__(self, *a):
+        global unhex, _live
+        unhex = self._old
+        _live = None
